@@ -1,7 +1,8 @@
 #!/usr/bin/env python3
 """tools/seedmeta.py <seed dir name> <property> <caught_by text> : write seeded/<name>/meta.json"""
 import json, os, sys, re
-name, prop, caught = sys.argv[1], sys.argv[2], sys.argv[3]
+name, prop = sys.argv[1], sys.argv[2]
+caught = sys.argv[3] if len(sys.argv) > 3 else None
 d = os.path.join("/verif/seeded", name)
 am = {}
 p = os.path.join(d, "agent_meta.json")
@@ -16,6 +17,11 @@ for f in sorted(os.listdir(d)):
                            "with_failing_input": len([l for l in re.findall(r"^VIOLATION.*$", t, re.M) if "no-failing-input-found" not in l]),
                            "first": (re.findall(r"-> (.*)", t) or [""])[0][:300]}
 conf = open(os.path.join(d, "confirm.txt")).read() if os.path.exists(os.path.join(d, "confirm.txt")) else None
+if caught is None:
+    c = checks.get(prop, {})
+    if c.get("with_failing_input"): caught = "caught: VIOLATION with a concrete failing input (%s)" % c.get("first", "")[:160]
+    elif c.get("violation_lines"): caught = "caught as a broken tie only: VIOLATION ... no-failing-input-found (%s)" % c.get("first", "")[:160]
+    else: caught = "MISSED by the quick tier of bin/check %s" % prop
 meta = {"property": prop, "breaks": am.get("summary", ""), "needs_to_manifest": am.get("needs", ""),
         "commit_message": am.get("commit_message", ""),
         "source": "written by a fresh sub-agent that saw only the property text and its own worktree of /repo (nothing from /verif)",
